@@ -190,7 +190,7 @@ def configs(tier):
     nmax = 6 if tier == "quick" else 7
     for n in range(2, nmax + 1):
         cf.append({"kind": "parts", "n": n})
-    tmax = 5 if tier == "quick" else 6
+    tmax = 4 if tier == "quick" else 6
     for n in range(2, tmax + 1):
         cf.append({"kind": "trend", "n": n, "entry": "1d"})
     for n in (2, 3, 4):
@@ -228,7 +228,7 @@ def main(tier, seed, nproc=None):
                        "sqrt, erf, the quotient (S-+1)/sqrt(Var) and ndtri(0.975) are uninterpreted symbols shared by kernel and definition "
                        "(1.9599 < ndtri(0.975) < 1.96); p < 0.05 <=> |Z| > ndtri(0.975) is assumed (numerics of erf / ndtri)",
                        "np.unique / np.nanmedian via order statistics (fresh variables with defining constraints)"]
-    chk.bounds = {"n": f"2..{6 if tier == 'quick' else 7} (S, tau, variance, Sen slope); 2..{5 if tier == 'quick' else 6} (composition); gufunc wrappers n <= 4"}
+    chk.bounds = {"n": f"2..{6 if tier == 'quick' else 7} (S, tau, variance, Sen slope); 2..{4 if tier == 'quick' else 6} (composition); gufunc wrappers n <= 4"}
     chk.outside = ["series longer than the bound", "float32 rounding of the stored outputs", "erf / ndtri numerics",
                    "invariance under monotone maps / negation / reversal (corollaries of the definitional equalities)"]
     validate(chk, seed)
